@@ -151,11 +151,26 @@ static void exec(const plan_t *p)
                 int seekable = (int)o->a[1];
                 size_t pos = (size_t)o->a[2];
                 FILE *fp;
+                int sfd = -1;
                 if (pos > o->slen) pos = o->slen;
+                if (seekable >= 2) {
+                    /* a stdio stream over a descriptor (a pipe: 2, a regular file: 3), as fdopen() or popen() give one, of which the caller
+                       has already read the first few bytes through stdio: stdio has read ahead, so the descriptor's own position is further
+                       on than the stream's.  What the object must hold is what the *stream* still has to give. */
+                    size_t pre = o->na > 3 && o->a[3] > 0 ? (size_t)o->a[3] : 0, got = 0;
+                    sfd = simfd_new_src(0, o->s, o->slen, seekable == 3, 0, 0);
+                    fp = simfd_fd_stream(sfd);
+                    while (got < pre && fgetc(fp) != EOF) got++;
+                    pos = got;
+                    seekable = seekable == 3;
+                    probe_hit(got ? "fp_over_descriptor_partly_read" : "fp_over_descriptor");
+                } else {
                 fp = simfd_cookie_stream(o->s, o->slen, seekable, seekable ? pos : 0);
                 if (!seekable) pos = 0;
+                }
                 if (isnew) made = viaclass ? (spif_mbuff_t)(SPIF_MBUFFCLASS_VAR(mbuff)->new_from_fp)(fp) : spif_mbuff_new_from_fp(fp); else ok = viaclass ? (spif_bool_t)(long)(SPIF_MBUFFCLASS_VAR(mbuff)->init_from_fp)(self, fp) : spif_mbuff_init_from_fp(self, fp);
                 fclose(fp);
+                if (sfd >= 0) simfd_close_harness(0, sfd);
                 m_set(m, o->s + pos, o->slen - pos);
                 may_fail = (o->slen - pos == 0);      /* B.2: empty source: return value DC */
                 probe_hit(seekable ? (pos ? "fp_seekable_nonzero_pos" : "fp_seekable") : "fp_streaming");
@@ -485,6 +500,11 @@ static void gen_ctor(plan_t *p, rng_t *r, int slot, int isnew, int hard, int big
         snprintf(kind, sizeof(kind), "%s_fp", pre);
         n = gen_bytes(r, gbuf, sizeof(gbuf), big || rng_chance(r, 1, 3) ? rng_range(r, 1, 2) : 0);
         if (rng_chance(r, 1, 12)) { n = 4096; for (size_t j = 0; j < n; j++) gbuf[j] = (unsigned char)rng_below(r, 256); }
+        if (rng_chance(r, 1, 5)) {
+            /* a stream over a descriptor, possibly read from already */
+            static const int pres[] = { 0, 0, 1, 1, 2, 5, 100, 4095, 4096, 4097 };
+            o = plan_op(p, 0, kind, 4, (long)slot, (long)(2 + seekable), 0L, (long)pres[rng_below(r, 10)]);
+        } else
         o = plan_op(p, 0, kind, 3, (long)slot, (long)seekable, (long)(seekable && rng_chance(r, 1, 6) ? rng_below(r, (uint32_t)n + 1) : 0));
         op_str(o, gbuf, n);
         { int nf = rng_range(r, 0, 8); static const int lims[] = { 1, 2, 3, 100, 1000, 4095, 4096, 4097 };
